@@ -20,7 +20,19 @@ class InfraError(Exception):
     pass
 
 
+_EH = None
+
+
 def _engine_hash():
+    """Hash of the engine sources, taken once per process: the cache key must describe the code that is loaded, not
+    whatever is on disk when a later configuration is analysed."""
+    global _EH
+    if _EH is None:
+        _EH = _engine_hash_now()
+    return _EH
+
+
+def _engine_hash_now():
     h = hashlib.sha256()
     for d in ("engine",):
         for fn in sorted(os.listdir(os.path.join(ROOT, d))):
@@ -28,6 +40,9 @@ def _engine_hash():
                 with open(os.path.join(ROOT, d, fn), "rb") as f:
                     h.update(f.read())
     return h.hexdigest()[:16]
+
+
+_engine_hash()
 
 
 def _worker(args):
